@@ -322,9 +322,9 @@ def plan(tier, seed):
     specs = []
     for scn in scenarios(tier):
         nparts = 3 if tier == 'quick' else 8
-        for part in range(nparts):
-            specs.append({'kind': 'one', 'scn': scn, 'part': part, 'parts': nparts, 'stride_out': 5 if tier == 'quick' else 1})
         heavy = scn.get('via') == 'detached'      # (its schedules are about ten times as long: join, leave and join again)
+        for part in range(nparts):
+            specs.append({'kind': 'one', 'scn': scn, 'part': part, 'parts': nparts, 'stride_out': 5 if tier == 'quick' or heavy else 1})
         light = bool(scn.get('gone_fd'))          # (the set-up differs, the schedule space does not: every single preemption point, few random ones)
         if tier != 'quick' and not heavy and not light:
             for part in range(8):
